@@ -55,7 +55,8 @@ func (j *shJar) apply(lines []string, fromStore bool) {
 			}
 		}
 		if c.MaxAge < 0 || (!c.Expires.IsZero() && c.Expires.Before(time.Now())) {
-			if idx >= 0 {
+			// a browser identifies a cookie by name, Domain and Path: a deletion written with another Domain / Path deletes nothing
+			if idx >= 0 && strings.TrimPrefix(j.cs[idx].Domain, ".") == strings.TrimPrefix(c.Domain, ".") && j.cs[idx].Path == c.Path {
 				j.cs = append(j.cs[:idx:idx], j.cs[idx+1:]...)
 			}
 			continue
@@ -71,8 +72,13 @@ func (j *shJar) apply(lines []string, fromStore bool) {
 
 func (j *shJar) request(host string) *http.Request {
 	r := httptest.NewRequest("GET", "https://"+host+"/", nil)
+	// the Cookie header as a browser writes it: name=value pairs verbatim (other applications' cookies may hold anything)
+	var pairs []string
 	for _, c := range j.cs {
-		r.AddCookie(&http.Cookie{Name: c.Name, Value: c.Value})
+		pairs = append(pairs, c.Name+"="+c.Value)
+	}
+	if len(pairs) > 0 {
+		r.Header.Set("Cookie", strings.Join(pairs, "; "))
 	}
 	return r
 }
@@ -345,6 +351,12 @@ func init() {
 					if r.intn(3) == 0 {
 						jar.apply([]string{name + "_csrf=c; Path=/", "other=o; Path=/"}, false)
 						c.count("jar:foreign-cookies")
+						if r.bool() {
+							// cookies of OTHER applications on the same domain that no strict parser accepts (JSON, non-ASCII, blanks)
+							jar.cs = append([]shCookie{{Name: "ui_prefs", Value: `{"theme":"dark"}`, Path: "/"}}, jar.cs...)
+							jar.cs = append(jar.cs, shCookie{Name: "city", Value: "Zurich CH \\ back", Path: "/"}, shCookie{Name: "weird name", Value: "x", Path: "/"})
+							c.count("jar:foreign-malformed")
+						}
 					}
 					// attribute overhead A and the split thresholds (harness arithmetic), from a probe save
 					A := -1
